@@ -1666,6 +1666,8 @@ package snaps
 //@ axiom relSorted_def: forall F0 Str, F1 Str, update Bool, nn Bool, d Array<Str,Bool>, v Array<Str,Int>, count Int, runOnly Str, sk Slice<Str> {relSorted(F0, F1, update, nn, d, v, count, runOnly, sk)}:
 //@      relSorted(F0, F1, update, nn, d, v, count, runOnly, sk) == relSortedDef(F0, F1, update, nn, d, v, count, runOnly, sk)
 //@ lemma cap_props @C07,C09,C10 use=lines: forall F Str, e1 Int, T Str, e2 Int {capPart(F, e1, T, eend(F, e1)), ehdr(F, e2)}: entryForm(F) && 0 <= e1 && e1 < nent(F) && 0 <= e2 && e2 < nent(F) && capOK(F, e1, T) ==> lacksT(T, tok(F, ehdr(F, e2))) && noENDt(T) && term(T)
+//@ lemma cap_bodyIs @C07,C09,C10 use=lines: forall F Str, e Int, T Str {capPart(F, e, T, eend(F, e))}: entryForm(F) && 0 <= e && e < nent(F) && capOK(F, e, T)
+//@      ==> found(F, tok(F, ehdr(F, e))) && bodyIs(F, tok(F, ehdr(F, e)), T) && term(T)
 //@ lemma entry_kept @C07,C09,C10 use=lines: forall F Str, G Str, e Int, T Str {capPart(F, e, T, eend(F, e)), bodyIs(G, tok(F, ehdr(F, e)), T)}: entryForm(F) && 0 <= e && e < nent(F) && capOK(F, e, T) && found(G, tok(F, ehdr(F, e))) && bodyIs(G, tok(F, ehdr(F, e)), T)
 //@      ==> body(G, tok(F, ehdr(F, e))) == body(F, tok(F, ehdr(F, e)))
 //@ mode str
